@@ -1,12 +1,152 @@
 ----------------------------- MODULE Known_Wire -----------------------------
 (* Named deviation actions for the recorded known findings of property C13       *)
 (* (see /verif/known_findings.json).  A deviation is enabled only for the listed *)
-(* subject and only under its semantic trigger; the trace specification records  *)
-(* the ids taken on an accepted path in the variable kf.                         *)
+(* subject (family / kind / variant of the reset event), the listed operation    *)
+(* and its semantic trigger, and only for a result the contract rejects; the     *)
+(* trace specification records the ids taken on an accepted path in kf.          *)
+(* After a wrong or refused read the driver continues at the next record         *)
+(* boundary, so the deviations of part 1 advance the cursor by the record size.  *)
 EXTENDS Wire, TLC
 
-KnownIds == {}
+KnownIds == {"C13-KF1", "C13-KF2", "C13-KF3", "C13-KF4", "C13-KF5", "C13-KF6",
+             "C13-KF7", "C13-KF8", "C13-KF9", "C13-KF10", "C13-KF11", "C13-KF12"}
 
-DevApplies(id, e, subj) == FALSE
-KnownDeviation(id, e, subj) == FALSE
+HasTag(e, t) == "tags" \in DOMAIN e /\ \E i \in 1..Len(e.tags) : e.tags[i] = t
+AtCursor(e) == HasNext /\ e.at = off
+WrongValue(e) == e.v /= stream[cur].v
+
+(* C13-KF1: VarIntEncoder delta strategy, u64 sequences: a difference of 2^63 or more   *)
+(* between neighbours overflows the (diff << 1 | sign) encoding: the decoded sequence    *)
+(* has the right length but wrong elements.                                             *)
+G1(e, subj) == /\ subj.fam = "encseq" /\ subj.kind \in {"delta", "auto"}
+               /\ e.op = "read_val"
+               /\ e.codec \in {"encseq:delta:u64", "encseq:auto>delta:u64"}
+               /\ HasTag(e, "bigdiff")
+               /\ AtCursor(e) /\ WrongValue(e) /\ Len(e.v) = Len(stream[cur].v)
+KF1(e, subj) == G1(e, subj) /\ Advance
+
+(* C13-KF2: group varint sequences: the selector has two bits per element (1..4 bytes), *)
+(* an element above 2^32-1 (any negative i64) is truncated or makes decoding fail.      *)
+G2(e, subj) == /\ subj.fam = "encseq" /\ subj.kind = "groupvarint"
+               /\ e.op \in {"read_val", "read_refused"}
+               /\ HasTag(e, "over32")
+               /\ AtCursor(e)
+               /\ e.op = "read_val" => (WrongValue(e) /\ Len(e.v) = Len(stream[cur].v))
+KF2(e, subj) == G2(e, subj) /\ Advance
+
+(* C13-KF3: write_endianness_magic(Big) on a little-endian host yields the little-endian *)
+(* magic, which detect_endianness_from_magic reads back as Little.                       *)
+G3(e, subj) == /\ subj.fam = "endian" /\ subj.variant = "magic"
+               /\ e.op = "read"
+               /\ AtCursor(e) /\ stream[cur].v = <<"Big">> /\ e.v = <<"Little">>
+               /\ e.consumed = stream[cur].n
+KF3(e, subj) == G3(e, subj) /\ Advance
+
+(* C13-KF4: endian::simd::convert_u16/u32_slice_simd test their from_little argument     *)
+(* inverted: data that needs no conversion is swapped, data that needs it is not.        *)
+G4(e, subj) == /\ subj.fam = "endian" /\ subj.variant = "slices"
+               /\ e.op = "batch_eq"
+               /\ e.what \in {"convert_u16_slice_simd vs from_endian", "convert_u32_slice_simd vs from_endian"}
+               /\ e.n >= 1
+               /\ e.batch /= e.scalar /\ Len(e.batch) = Len(e.scalar)
+KF4(e, subj) == G4(e, subj) /\ UNCHANGED <<wireVars, viewVars>>
+
+(* C13-KF5: a dangling Weak is written as the single marker byte 0, but the reader then  *)
+(* deserialises a pointee that was never written: it fails at the end of the stream or   *)
+(* swallows the bytes of the following records.                                          *)
+G5(e, subj) == /\ subj.fam = "smart" /\ subj.variant = "weak"
+               /\ e.op \in {"read", "read_refused"}
+               /\ e.codec \in {"smart:weak<rc>/dangling", "smart:weak<arc>/dangling"}
+               /\ AtCursor(e)
+               /\ e.op = "read" => e.consumed /= stream[cur].n
+KF5(e, subj) == G5(e, subj) /\ Advance
+
+(* C13-KF6: SerializationContext identifies objects by address without keeping them      *)
+(* alive: a temporary Rc allocated where an earlier (dropped) one lived is written as a   *)
+(* back reference and decodes to the EARLIER value.                                      *)
+G6(e, subj) == /\ subj.fam = "smart" /\ subj.variant = "ctx-temp"
+               /\ e.op = "read"
+               /\ AtCursor(e) /\ WrongValue(e) /\ e.consumed = stream[cur].n
+               /\ \E i \in 1..(cur - 1) : stream[i].v = e.v
+KF6(e, subj) == G6(e, subj) /\ Advance
+
+(* C13-KF7: Version packs major and minor into 8 bits each although the fields are u16:  *)
+(* a major or minor above 255 does not survive serialize / to_u32.                        *)
+G7(e, subj) == /\ subj.fam = "ver" /\ subj.variant = "version"
+               /\ e.op = "read"
+               /\ HasTag(e, "over8")
+               /\ AtCursor(e) /\ WrongValue(e) /\ e.consumed = stream[cur].n
+KF7(e, subj) == G7(e, subj) /\ Advance
+
+(* C13-KF8: VersionedSerialize::serialize_versioned writes no version header but          *)
+(* deserialize_versioned reads one: the first four payload bytes are taken as the version. *)
+G8(e, subj) == /\ subj.fam = "ver" /\ subj.variant = "versioned"
+               /\ e.op \in {"read", "read_refused"}
+               /\ e.codec = "ver:versioned-trait"
+               /\ AtCursor(e)
+               /\ e.op = "read" => (WrongValue(e) \/ e.consumed /= stream[cur].n)
+KF8(e, subj) == G8(e, subj) /\ Advance
+
+(* C13-KF9: StreamBufferedReader::seek(SeekFrom::Current(o)) forwards o to the inner      *)
+(* reader, which is ahead of the logical position by the bytes still buffered: the new    *)
+(* position (reported and real) is target + buffered.                                     *)
+G9(e, subj) == /\ subj.fam = "rd" /\ subj.kind = "buffered_seekcur"
+               /\ e.op = "seek" /\ e.whence = "cur"
+               /\ e.r > SeekTarget("cur", e.o)
+(* (the inner reader may even end up beyond the end of the stream: then nothing is left)  *)
+KF9(e, subj) == G9(e, subj) /\ vc' = (IF e.r > VLen THEN VLen ELSE e.r) /\ UNCHANGED <<view, sent, wireVars>>
+
+(* C13-KF10: ZeroCopyReader: a request larger than the buffer capacity (zc_read, peek,    *)
+(* read_optimized) finds the buffer full, takes "0 bytes filled" for end of stream and     *)
+(* latches eof: later small reads report end of stream although data is left.              *)
+G10(e, subj) == /\ subj.fam = "rd" /\ subj.kind = "zerocopy_over"
+                /\ e.op = "readn"
+                /\ "overcap" \in DOMAIN e /\ e.overcap
+                /\ e.got = <<>> /\ e.k > 0 /\ vc < VLen
+KF10(e, subj) == G10(e, subj) /\ UNCHANGED <<viewVars, wireVars>>
+
+(* C13-KF11: VectoredIO::read_vectored goes on to the next buffer after a short read: the *)
+(* bytes are not contiguous in the buffers although the count says so.  The inner reader   *)
+(* has advanced by the count returned.                                                     *)
+G11(e, subj) == /\ subj.fam = "rd" /\ subj.kind = "vectored"
+                /\ e.op = "readn"
+                /\ Len(e.got) <= e.k /\ vc + Len(e.got) <= VLen
+                /\ e.got /= Slice(vc, Len(e.got))
+KF11(e, subj) == G11(e, subj) /\ vc' = vc + Len(e.got) /\ UNCHANGED <<view, sent, wireVars>>
+
+(* C13-KF12: VectoredIO::write_vectored goes on to the next buffer after a short write:   *)
+(* the sink misses the tail of the first buffer although the count covers it.              *)
+G12(e, subj) == /\ subj.fam = "wr" /\ subj.kind = "vectored"
+                /\ e.op = "sink"
+                /\ e.got /= sent /\ Len(e.got) = Len(sent) /\ e.ob = e.oa
+KF12(e, subj) == G12(e, subj) /\ UNCHANGED <<viewVars, wireVars>>
+
+(* guard (state predicate) and action of each deviation.  In KF mode a deviation whose    *)
+(* guard holds REPLACES the contract action for that event.                                *)
+DevApplies(id, e, subj) ==
+    \/ id = "C13-KF1" /\ G1(e, subj)
+    \/ id = "C13-KF2" /\ G2(e, subj)
+    \/ id = "C13-KF3" /\ G3(e, subj)
+    \/ id = "C13-KF4" /\ G4(e, subj)
+    \/ id = "C13-KF5" /\ G5(e, subj)
+    \/ id = "C13-KF6" /\ G6(e, subj)
+    \/ id = "C13-KF7" /\ G7(e, subj)
+    \/ id = "C13-KF8" /\ G8(e, subj)
+    \/ id = "C13-KF9" /\ G9(e, subj)
+    \/ id = "C13-KF10" /\ G10(e, subj)
+    \/ id = "C13-KF11" /\ G11(e, subj)
+    \/ id = "C13-KF12" /\ G12(e, subj)
+KnownDeviation(id, e, subj) ==
+    \/ id = "C13-KF1" /\ KF1(e, subj)
+    \/ id = "C13-KF2" /\ KF2(e, subj)
+    \/ id = "C13-KF3" /\ KF3(e, subj)
+    \/ id = "C13-KF4" /\ KF4(e, subj)
+    \/ id = "C13-KF5" /\ KF5(e, subj)
+    \/ id = "C13-KF6" /\ KF6(e, subj)
+    \/ id = "C13-KF7" /\ KF7(e, subj)
+    \/ id = "C13-KF8" /\ KF8(e, subj)
+    \/ id = "C13-KF9" /\ KF9(e, subj)
+    \/ id = "C13-KF10" /\ KF10(e, subj)
+    \/ id = "C13-KF11" /\ KF11(e, subj)
+    \/ id = "C13-KF12" /\ KF12(e, subj)
 =============================================================================
